@@ -92,7 +92,7 @@ def _spec_case(kind, i, layout, gkind, batch, h, group, stages, inv, sub, cost):
           'stages': int(stages), 'inv': inv, 'sub': int(sub), 'cost': float(cost)}
 
 
-TAY_COST = {'t1': 1.0, 't2': 1.0, 't3': 1.0, 't4': 1.0}
+TAY_COST = {'t1': 1.0, 't2': 1.0, 't3': 1.0, 't4': 1.0, 't5': 1.0}
 
 
 def cases(tier, seed):
@@ -148,12 +148,15 @@ TAY_GROUPS = {
     't2': ['crank_nicolson_rk3', 'ls:williamson3', 'imex:ars222'],
     't3': ['crank_nicolson_rk4', 'ls:rand2'],
     't4': ['imex_rk_sil3', 'ls:ck4', 'imex:rand', 'imex:sparse'],
+    't5': ['imex:ars232', 'imex:rand_sa_im', 'imex:rand_sa_ex'],
 }
 EXE_GROUPS = {
     'e1': ['backward_forward_euler', 'crank_nicolson_rk2', 'crank_nicolson_rk3',
            'semi_implicit_leapfrog', 'ls:williamson3', 'ls:rand1', 'imex:euler'],
     'e2': ['crank_nicolson_rk4', 'imex_rk_sil3', 'ls:ck4', 'ls:rand2', 'imex:ars222', 'imex:rand',
            'imex:sparse'],
+    'e3': ['imex:ars232', 'imex:rand_sa_im', 'imex:rand_sa_ex', 'imex:rand_sa_both',
+           'imex:rand_b_equal'],
 }
 
 
@@ -337,6 +340,14 @@ def _schemes(case, M):
   imex('imex:ars222', rk_ref.ars222())
   imex('imex:rand', rk_ref.random_imex_tableau(rng, 2 + (st % 3)))
   imex('imex:sparse', rk_ref.imex_sparse3())
+  # structural coincidences an implementation may special-case (stiffly accurate / FSAL shortcuts):
+  # implicit half stiffly accurate with a generic explicit half, and the other way round
+  imex('imex:ars232', rk_ref.ars232())
+  nst = 2 + ((st + 1) % 3)
+  imex('imex:rand_sa_im', rk_ref.random_imex_tableau(rng, max(2, nst), structure='sa_im'))
+  imex('imex:rand_sa_ex', rk_ref.random_imex_tableau(rng, max(2, nst), structure='sa_ex'))
+  imex('imex:rand_sa_both', rk_ref.random_imex_tableau(rng, max(2, nst), structure='sa_both'))
+  imex('imex:rand_b_equal', rk_ref.random_imex_tableau(rng, max(2, nst), structure='b_equal'))
   return out
 
 
